@@ -12,7 +12,7 @@ import (
 )
 
 func init() {
-	props["C04"] = &propDef{run: runC04, explanation: "Structural clause of C04 decided statically: the success terms (def-use reconstruction with repo callees inlined, rewritten into the algebra {JCS,H,mhEnc,mhDec,b64,b64dec}) of GetRevealValue, GetCommitment and GetCommitmentFromRevealValue equal the documented normal forms for a symbolic hash code, and substituting the reveal term into commitment-from-reveal rewrites (axiom mhDec(b64dec(b64(mhEnc(x,c)))) = (c,x)) to the commitment term; leaf contracts of the hash primitives (code table, one Write of the data, Sum(nil)); every jws.JWK field is serialised (so every member incl. nonce is hashed); the parser's reveal/commitment extraction table per operation type. Not decided: injectivity of JCS∘Marshal and collision resistance (needed for 'different keys ⇒ different commitments'). (T3) the reveal value an update / recover / deactivate reports is the RevealValue member of the decoded request (one store) and is the value handed to IsValidModelMultihash together with the signing key. The parser's reveal-value rule (C02.G3) runs inside this check; both accessors parse anchored operations in batch mode. IsValidModelMultihash's contract is part of the reveal rule; the canonical order's prefix case is decided on the three orderings of the two key lengths. All of C07 runs inside this check."}
+	props["C04"] = &propDef{extraPkgs: []string{jsonPatchPkg}, run: runC04, explanation: "Structural clause of C04 decided statically: the success terms (def-use reconstruction with repo callees inlined, rewritten into the algebra {JCS,H,mhEnc,mhDec,b64,b64dec}) of GetRevealValue, GetCommitment and GetCommitmentFromRevealValue equal the documented normal forms for a symbolic hash code, and substituting the reveal term into commitment-from-reveal rewrites (axiom mhDec(b64dec(b64(mhEnc(x,c)))) = (c,x)) to the commitment term; leaf contracts of the hash primitives (code table, one Write of the data, Sum(nil)); every jws.JWK field is serialised (so every member incl. nonce is hashed); the parser's reveal/commitment extraction table per operation type. Not decided: injectivity of JCS∘Marshal and collision resistance (needed for 'different keys ⇒ different commitments'). (T3) the reveal value an update / recover / deactivate reports is the RevealValue member of the decoded request (one store) and is the value handed to IsValidModelMultihash together with the signing key. The parser's reveal-value rule (C02.G3) runs inside this check; both accessors parse anchored operations in batch mode. IsValidModelMultihash's contract is part of the reveal rule; the canonical order's prefix case is decided on the three orderings of the two key lengths. All of C07 runs inside this check."}
 }
 
 const (
